@@ -28,6 +28,10 @@ CHECKS = {
   text="Theorems in coq/Props/C16.v: each require_* helper of the model returns normally iff its documented condition holds (require_scalar over any list of valid scalar types, require_mapping/sequence, require_attribute present / recognisable by the loader's own recognize with non-empty result, require_attribute_value(_not) on a uniquely present str-keyed attribute), and value checks reject a missing attribute. The helpers are functions node -> verdict in the model; 'never modify the node' is observed on every tie case (and was violated before fix 5cbeffb).",
   note="Trusted: Coq kernel; Model/Recognize.v (require, recognize) tied to yatiml by running ~5000 (thorough: the full product, ~11k) helper calls on the real UnknownNode with the loader's own Recognizer and comparing verdicts inside Coq, plus a docstring-derived Python oracle and a node-unchanged check.",
   technique=TECH, design='6 C16'),
+ 'C18': dict(
+  text="Theorems in coq/Props/C18.v over Model/Graph.v (documents as node graphs): expansion of aliases into copies terminates with a verdict for EVERY graph -- it never exhausts its fuel, self-references are rejected with RecognitionError (proved via a pigeonhole bound on the current path) -- and loading a graph is by construction loading its expansion, hence fails iff that fails. The content that aliases are transparent in the IMPLEMENTATION is carried by fix 3ade162 (expand before processing) and the tie.",
+  note="Trusted: Coq kernel; tie: Loader.__expand_aliases vs Graph.expand on every composed graph of the run; aliased vs textually expanded document on the implementation (metamorphic); aliased document on the implementation vs the load model on the expanded tree; 7 cyclic documents x 4 declared types x 6 models must raise RecognitionError/YAMLError.",
+  technique=TECH, design='6 C18'),
 }
 
 REASON_TODO = 'check not built yet (work in progress; DESIGN.md section 11 gives the build order)'
